@@ -922,10 +922,12 @@ def pncexpr(expr, ifile, verbose=0):
             while isinstance(target, (ast.Subscript, ast.Attribute)):
                 target = target.value
             vk = getattr(target, 'id', None)
-            if (
-                isinstance(vardict.get(vk, None), np.ndarray) and
-                any(vardict[vk] is v for v in filevars.values())
+            if isinstance(vardict.get(vk, None), np.ndarray) and (
+                any(vardict[vk] is v for v in filevars.values()) or
+                any(vardict[vk] is getattr(ifile, ak, None)
+                    for ak in ifile.ncattrs())
             ):
+                # a variable or an array-valued attribute of the file
                 vardict[vk] = vardict[vk].copy()
 
     # Assign expression to new variable.
